@@ -71,7 +71,7 @@ class Clock:
 
 
 def shards(tier, seed):
-    mult = 1 if tier == "quick" else 12
+    mult = 1 if tier == "quick" else 24
     return [{"n_udp": 3000 * mult, "n_tcp": 600 * mult, "part": i, "parts": 16} for i in range(16)]
 
 
